@@ -41,8 +41,9 @@ def scenarios(tier):
                 scn = wfscn.ProgScenario(
                     '%s/%s/%s' % (name, tag, sched), prog, results=res,
                     check_prereq=True, scheduler=sched)
-                bound = None if (n <= 3 or not quick) else (
-                    2 if n == 4 else 1)
+                bound = None if (n <= 3 or not quick) else 2
+                if quick and n >= 5 and ai >= 3 and 'nested' not in name:
+                    continue
                 jobs.append((scn, bound, 40 if quick else 1200, 1, 'join',
                              ai))
     for name, (prog, target) in wfgen.reverse_shapes(
